@@ -145,6 +145,8 @@ func genSets(r *vgen.Rand, n int) ([][]kv, map[string]uint64) {
 type delivery map[string]map[uint64]int64 // metric name -> key -> value (model units)
 
 type recExporter struct {
+	entered chan struct{} // non-nil: signalled (without blocking) whenever an Export call has begun
+	honour  bool          // with a gate: the payload counts as delivered only if the gate opens before the context ends
 	aggMode int
 	gate    chan struct{} // non-nil: Export hands the data over, then stalls until the gate is closed or its context ends
 	temp    metricdata.Temporality
@@ -172,6 +174,23 @@ func aggSel(mode int) sdk.AggregationSelector {
 }
 func (e *recExporter) Export(ctx context.Context, rm *metricdata.ResourceMetrics) error {
 	d := e.ext(rm)
+	if e.entered != nil {
+		select {
+		case e.entered <- struct{}{}:
+		default:
+		}
+	}
+	if e.gate != nil && e.honour { // a slow backend that honours its context: nothing is delivered if the context ends first
+		select {
+		case <-e.gate:
+		case <-ctx.Done():
+			return ctx.Err()
+		}
+		e.mu.Lock()
+		e.exps = append(e.exps, d)
+		e.mu.Unlock()
+		return nil
+	}
 	e.mu.Lock()
 	e.exps = append(e.exps, d)
 	e.mu.Unlock()
@@ -1046,6 +1065,165 @@ func runConcurrent(w *vgen.Writer, r *vgen.Rand, desc string) {
 		"concurrent", nDel >= 2)
 }
 
+// runPiledFlush (fixed program, seeded change C02-8): ForceFlush #2 is issued while ForceFlush #1 is still
+// inside a slow Export and after one more measurement was recorded.  When #2 returns nil, that
+// measurement must have been collected and exported by a collection of its own: the history is
+// equivalent to Add a; ForceFlush; Add b; ForceFlush and is judged like a sequential one.
+func runPiledFlush(w *vgen.Writer, r *vgen.Rand, desc string, delta bool) {
+	cfgs := []readerCfg{{periodic: true, delta: delta}}
+	sets, keyIdx := genSets(r, 1)
+	wd, err := build(w, r, desc, cfgs, 1, time.Hour, keyIdx, 0, false, false)
+	if err != nil {
+		w.Violation("setup failed: "+err.Error(), desc)
+		return
+	}
+	ex := wd.exps[0]
+	gate := make(chan struct{})
+	ex.gate = gate
+	ex.entered = make(chan struct{}, 8)
+	ctx := context.Background()
+	k := keyIdx[canon(sets[0])]
+	a, b := int64(r.Range(1, 40)), int64(r.Range(1, 40))
+	if wd.insts[0].float {
+		a, b = a*scale, b*scale
+	}
+	wd.insts[0].add(ctx, a, sets[0], 0, 0)
+	res := make(chan error, 2)
+	go func() { res <- wd.period[0].ForceFlush(ctx) }()
+	select {
+	case <-ex.entered: // #1 has collected and is inside Export
+	case <-time.After(60 * time.Second):
+		close(gate)
+		return // inconclusive: the machine is too busy to set the shape up
+	}
+	wd.insts[0].add(ctx, b, sets[0], 1, 0)
+	go func() { res <- wd.period[0].ForceFlush(ctx) }() // #2 waits for the run loop
+	time.Sleep(30 * time.Millisecond)                   // let #2 reach the flush channel (not needed for correctness)
+	close(gate)
+	codes := []string{}
+	for i := 0; i < 2; i++ {
+		select {
+		case e := <-res:
+			codes = append(codes, vgen.N(code(e)))
+		case <-time.After(120 * time.Second):
+			w.Violation("ForceFlush issued during an export did not return within 120 s", desc)
+			return
+		}
+	}
+	n0 := ex.count()
+	dels := [][]delivery{ex.since(0)}
+	e := wd.period[0].Shutdown(ctx)
+	dels[0] = append(dels[0], ex.since(n0)...)
+	codes = append(codes, vgen.N(code(e)))
+	terms := []string{
+		vgen.App("Ad", "0", vgen.N(k), zig(a)), vgen.App("Fl", "0"),
+		vgen.App("Ad", "0", vgen.N(k), zig(b)), vgen.App("Fl", "0"), vgen.App("Sd", "0"),
+	}
+	w.Tally("piled-up ForceFlush (fixed program)")
+	term := vgen.App("CSeq", vgen.List([]string{cfgs[0].coq(false)}), "1", vgen.List(terms), obsTerm(wd, dels), vgen.List([]string{vgen.List(codes)}))
+	w.Add(term, map[string]any{"history": desc, "program": "Add a; ForceFlush #1 (inside a slow Export); Add b; ForceFlush #2 issued meanwhile; release; Shutdown", "delta": delta}, "seq-corpus-piled-flush", true)
+}
+
+// runFlushCallerGivesUp (seeded change C02-15): the caller of ForceFlush gives up (its context is cancelled)
+// while the export is in flight at a slow backend that honours ITS context.  The collection has
+// already drained the delta sums; the run loop must finish the export under the reader's own context.
+// After the final Shutdown every reader has delivered everything exactly once.
+func runFlushCallerGivesUp(w *vgen.Writer, r *vgen.Rand, desc string, viaProvider bool) {
+	n := r.Range(1, 2)
+	cfgs := make([]readerCfg, n)
+	for i := range cfgs {
+		cfgs[i] = readerCfg{periodic: true, delta: i == 0 || r.Bool()}
+	}
+	nInst := r.Range(1, 2)
+	sets, keyIdx := genSets(r, r.Range(1, 3))
+	wd, err := build(w, r, desc, cfgs, nInst, time.Hour, keyIdx, 0, true, false)
+	if err != nil {
+		w.Violation("setup failed: "+err.Error(), desc)
+		return
+	}
+	ex := wd.exps[0]
+	gate := make(chan struct{})
+	ex.gate, ex.honour, ex.entered = gate, true, make(chan struct{}, 8)
+	ctx := context.Background()
+	totals := make([]map[uint64]int64, nInst)
+	for i := range totals {
+		totals[i] = map[uint64]int64{}
+	}
+	addSome := func() {
+		for j, m := 0, r.Range(3, 20); j < m; j++ {
+			i := r.Intn(nInst)
+			s := sets[r.Intn(len(sets))]
+			v := genValue(r, wd.insts[i])
+			wd.insts[i].add(ctx, v, s, j, j/2)
+			totals[i][keyIdx[canon(s)]] += v
+		}
+	}
+	addSome()
+	cctx, cancel := context.WithCancel(ctx)
+	flushed := make(chan error, 1)
+	go func() {
+		if viaProvider {
+			flushed <- wd.mp.ForceFlush(cctx)
+		} else {
+			flushed <- wd.period[0].ForceFlush(cctx)
+		}
+	}()
+	select {
+	case <-ex.entered: // the collection is done, the export is in flight
+	case <-time.After(60 * time.Second):
+		cancel()
+		close(gate)
+		return // inconclusive
+	}
+	cancel() // the caller gives up
+	select {
+	case <-flushed:
+	case <-time.After(120 * time.Second):
+		w.Violation("ForceFlush did not return after its context was cancelled", desc)
+		close(gate)
+		return
+	}
+	close(gate) // the backend answers
+	// wait until the in-flight export is over: the next ForceFlush is served only after it
+	if e := wd.period[0].ForceFlush(ctx); e != nil {
+		w.Violation(fmt.Sprintf("ForceFlush after the backend recovered returned %v", e), desc)
+	}
+	addSome()
+	if e := wd.mp.Shutdown(ctx); e != nil {
+		w.Violation(fmt.Sprintf("MeterProvider.Shutdown returned %v", e), desc)
+	}
+	dels := make([][]delivery, n)
+	for rd := range cfgs {
+		dels[rd] = wd.exps[rd].since(0)
+	}
+	var cfgT, cfgD, addT []string
+	for _, c := range cfgs {
+		cfgT = append(cfgT, c.coq(false))
+		cfgD = append(cfgD, fmt.Sprintf("periodic=%v delta=%v", c.periodic, c.delta))
+	}
+	streamInst := make([]int, len(wd.streams))
+	for i, in := range wd.insts {
+		for _, si := range in.streams {
+			streamInst[si] = i
+		}
+	}
+	for _, i := range streamInst {
+		ks := make([]uint64, 0, len(totals[i]))
+		for k := range totals[i] {
+			ks = append(ks, k)
+		}
+		sort.Slice(ks, func(a, b int) bool { return ks[a] < ks[b] })
+		var ts []string
+		for _, k := range ks {
+			ts = append(ts, vgen.App("T", vgen.N(k), zig(totals[i][k])))
+		}
+		addT = append(addT, vgen.List(ts))
+	}
+	w.Tally("ForceFlush caller gives up during the export")
+	term := vgen.App("CConc", vgen.List(cfgT), "false", vgen.List(addT), obsTerm(wd, dels))
+	w.Add(term, map[string]any{"history": desc, "readers": cfgD, "via_provider": viaProvider, "views": wd.viewsD}, "flush-caller-gives-up", true)
+}
+
 // periodicExtra, when set, adds options to the periodic readers that build creates (by reader index).
 var periodicExtra func(reader int) []sdk.PeriodicReaderOption
 
@@ -1334,6 +1512,14 @@ func main() {
 	for n, c := range corpus {
 		desc := fmt.Sprintf("corpus %d (history of F-C02-1, fixed)", n)
 		guard(desc, func() { runSequential(w, r.Fork(), desc, c.cfgs, 1, 1, c.ops, false, 0, "seq-corpus") })
+	}
+	for n := 0; n < 4; n++ { // fixed programs, run on every run
+		desc := fmt.Sprintf("corpus piled-up ForceFlush %d", n)
+		guard(desc, func() { runPiledFlush(w, r.Fork(), desc, n%2 == 0) })
+	}
+	for n := 0; n < 6; n++ {
+		desc := fmt.Sprintf("corpus ForceFlush caller gives up %d", n)
+		guard(desc, func() { runFlushCallerGivesUp(w, r.Fork(), desc, n%2 == 1) })
 	}
 	nSeq := o.Count(400, 8000)
 	for n := 0; n < nSeq; n++ {
